@@ -77,32 +77,52 @@ def explain_dev(case, backend, i):
     if backend in ("sqlite", "pg"):
         if op == "extend":
             return "sql_maxmin_swapped"
-        if op == "join":
+        if op == "join" and backend == "sqlite":
             return "sqlite_full_join_emulation"
     return "%s_%s" % (backend, op)
 
 
-def eval_backend(be, backend, ops, case, nm, loaded):
+def eval_backend(be, backend, ops, case, nm, loaded, variant=None):
     if backend == "pandas":
-        return be.pandas(ops, case, nm)
+        return be.pandas(ops, case, nm, variant=variant)
     if backend == "sqlite":
         if not loaded[0]:
-            be.load_sqlite(case, nm)
+            be.load_sqlite(case, nm, variant=variant)
             loaded[0] = True
         return be.sqlite.read_query(ops)
+    if backend == "pg":
+        # PostgreSQL-dialect SQL text executed on SQLite (proxy, see DESIGN.md C02)
+        if not loaded[0]:
+            be.load_sqlite(case, nm, variant=variant)
+            loaded[0] = True
+        return be.run_sql(be.sql_text(ops, "pg"))
     if backend == "polars":
-        return be.polars(ops, case, nm)
+        return be.polars(ops, case, nm, variant=variant)
     if backend == "polars_lazy":
-        return be.polars(ops, case, nm, lazy=True)
+        return be.polars(ops, case, nm, lazy=True, variant=variant)
     raise ValueError(backend)
 
 
-def judge_backend(case, built, backend, be, nm=relcase.IDENT, loaded=None, check_values=True):
+def order_defined(case, i):
+    """is the COLUMN order of the result after step i defined by the operators (C08)?
+    yes after select_columns, and through steps that pass columns through unchanged"""
+    j = i
+    while j >= 0:
+        op = case["prog"][j][0]
+        if not case["hist"][j]["ok"] or op in ("select_rows", "order_rows"):
+            j -= 1
+            continue
+        return op == "select_columns"
+    return False
+
+
+def judge_backend(case, built, backend, be, nm=relcase.IDENT, loaded=None, check_values=True, variant=None,
+                  col_order=False):
     kinds = case["kinds"]
     hist = case["hist"]
     n = len(hist)
     loaded = loaded if loaded is not None else [False]
-    altb = case.get("alt", {}).get("polars" if backend == "polars_lazy" else backend)
+    altb = case.get("alt", {}).get({"polars_lazy": "polars"}.get(backend, backend))
 
     def conv_upto(i):
         return any(h["conv"] for h in hist[: i + 1])
@@ -111,13 +131,15 @@ def judge_backend(case, built, backend, be, nm=relcase.IDENT, loaded=None, check
         """evaluate the pipeline as it stands after step i; returns (status, payload)"""
         ops = built.tops[i]
         try:
-            res = eval_backend(be, backend, ops, case, nm, loaded)
+            res = eval_backend(be, backend, ops, case, nm, loaded, variant)
         except Exception as ex:  # noqa: BLE001
             return "raised", "%s: %s" % (type(ex).__name__, str(ex)[:300])
         got = abs_table(res, nm)
         exp = spec_table(hist[i]["top"], kinds)
         values = check_values and not conv_upto(i)
         ok, why = same_table(got, exp, ordered=hist[i]["ordered"], values=values)
+        if ok and col_order and order_defined(case, i) and list(got[0]) != list(exp[0]):
+            ok, why = False, "column order %s != %s" % (got[0], exp[0])
         if ok:
             return ("ok" if values else "skip"), got
         return "diff", (got, exp, why)
@@ -137,7 +159,7 @@ def judge_backend(case, built, backend, be, nm=relcase.IDENT, loaded=None, check
         if s == "raised":
             return {"verdict": ("raised", i, p), "final": None}
         got, exp, why = p
-        if altb is not None and altb[i] != "same":
+        if altb is not None and altb[i] != "same" and check_values:
             ok2, _ = same_table(got, spec_table(altb[i], kinds), ordered=hist[i]["ordered"])
             if ok2:
                 return {"verdict": ("known", explain_dev(case, backend, i), i), "final": final}
@@ -146,7 +168,8 @@ def judge_backend(case, built, backend, be, nm=relcase.IDENT, loaded=None, check
     return {"verdict": ("diverge", last, {"why": "final differs but no prefix does"}), "final": final}
 
 
-def judge_case(case, backends=BACKENDS, nm=relcase.IDENT):
+def judge_case(case, backends=BACKENDS, nm=relcase.IDENT, opts=None):
+    opts = opts or {}
     be = _backends()
     out = {"hash": case_hash(case), "accept": None, "backends": {}}
     try:
@@ -161,9 +184,17 @@ def judge_case(case, backends=BACKENDS, nm=relcase.IDENT):
     if not out["accept_ok"]:
         return out
     out["declared"] = [relcase_cols(t, nm) for t in built.tops]
-    loaded = [False]
-    for b in backends:
-        out["backends"][b] = judge_backend(case, built, b, be, nm, loaded)
+    out["declared_ok"] = all(set(d) == set(h["top"]["cols"]) and len(d) == len(h["top"]["cols"])
+                             for d, h in zip(out["declared"], case["hist"]) if h["ok"])
+    for variant in opts.get("variants", [None]):
+        loaded = [False]
+        for b in backends:
+            if variant in ("dupidx", "stridx", "perm_keepidx") and b != "pandas":
+                continue
+            key = b if variant is None else "%s/%s" % (b, variant)
+            out["backends"][key] = judge_backend(case, built, b, be, nm, loaded,
+                                                 check_values=opts.get("values", True), variant=variant,
+                                                 col_order=opts.get("col_order", False))
     return out
 
 
@@ -173,23 +204,23 @@ def relcase_cols(ops, nm):
 
 
 def _work(args):
-    case, backends = args
+    case, backends, opts = args
     try:
-        return judge_case(case, backends)
+        return judge_case(case, backends, opts=opts)
     except Exception:  # noqa: BLE001
         return {"hash": case_hash(case), "crash": traceback.format_exc()[-1500:]}
 
 
-def replay(cases, backends=BACKENDS, procs=16, fn=None):
+def replay(cases, backends=BACKENDS, procs=16, fn=None, opts=None):
     """judge many cases in parallel; yields (case, outcome)"""
     fn = fn or _work
     if procs <= 1 or len(cases) < 8:
         for c in cases:
-            yield c, fn((c, backends))
+            yield c, fn((c, backends, opts))
         return
     ctx = multiprocessing.get_context("fork")
     with ctx.Pool(procs) as pool:
-        for c, o in zip(cases, pool.imap(fn, [(c, backends) for c in cases], chunksize=8)):
+        for c, o in zip(cases, pool.imap(fn, [(c, backends, opts) for c in cases], chunksize=8)):
             yield c, o
 
 
